@@ -37,6 +37,9 @@ type Scenario struct {
 func WithFine(scs []Scenario, p int) []Scenario {
 	var out []Scenario
 	for _, sc := range scs {
+		if sc.P == 0 {
+			continue // pure environment enumeration: no scheduling dimension to refine
+		}
 		sc.Name += "+stmt"
 		sc.Fine = true
 		sc.P = p
